@@ -539,3 +539,85 @@ UNITS += [
     file_unit('named_index_first', {'index_is_the_name_in_the_first_column': _maps('"cell_a"', '"cell_b"'), 'one_entry_per_barcode': _ONE}),
     file_unit('three_column', {'refused': 'False'}, raises={'ValueError': 'True'}),
 ]
+
+
+# ------------------------------------------------------------------------------ two files through one parser: each file on its own terms
+# a parser reads every whitelist of the barcode directory; what one file looks like (barcode first / index first) must not
+# carry over to the next (bounded: a barcode-first file followed by an index-first one, and the other order)
+def two_files_setup(order):
+    def setup(eng):
+        import os
+        from pyvc import externals
+        ctor_setup(eng)
+        externals.EXTRA['os.path.basename'] = lambda e, a, k, n: os.path.basename(a[0])
+        externals.EXTRA['os.path.splitext'] = lambda e, a, k, n: os.path.splitext(a[0])
+        bcs = []
+        for i in range(2):
+            b = _segstr.register_atom(eng, named(STR, 'barcode_%d' % i), ' \t\n\r\x0b\x0c0123456789')
+            eng.assume(z3.Length(b.z) == 3)
+            for j in range(3):
+                eng.assume(z3.Or([z3.SubString(b.z, j, 1) == z3.StringVal(c) for c in 'ACGTN']))
+            bcs.append(b)
+        eng.spec_env['B'] = bcs
+        files = {'/pkg/barcodes/bcfirst.bc': [_segstr.build([bcs[0], '\t5\n'])], '/pkg/barcodes/idxfirst.bc': [_segstr.build(['7\t', bcs[1], '\n'])]}
+        stubs.STUBS['TextFile'] = {'methods': {'__enter__': lambda e, o: o, '__exit__': lambda e, o, *a: None,
+                                               '__iter__': lambda e, o: list(o.attrs['lines'])}, 'props': {}, 'setters': {}}
+
+        def opener(e, a, k, n):
+            fh = Obj('TextFile', {'lines': files[a[0]]})
+            fh.vc_immutable = True
+            return fh
+        eng.spec_env['open'] = Builtin('open', opener)
+    return setup
+
+
+def two_files_unit(order):
+    first, second = ('bcfirst', 'idxfirst') if order == 0 else ('idxfirst', 'bcfirst')
+    u = Contract(
+        PROP, FP + '::BarcodeParser.parse_barcode_file', name='parse_barcode_file[%s file, then %s file, one parser]' % (first, second),
+        harness='''
+p = BarcodeParser(hammingDistanceExpansion=0)
+p.parse_barcode_file('/pkg/barcodes/%s.bc')
+p.parse_barcode_file('/pkg/barcodes/%s.bc')
+return p.barcodes
+''' % (first, second),
+        params={}, setup=two_files_setup(order),
+        ensures={'each_file_is_read_on_its_own_terms':
+                 'len(result) == 2 and len(result["bcfirst"]) == 1 and len(result["idxfirst"]) == 1 and '
+                 'all(k == B[0] and v == 5 for k, v in result["bcfirst"].items()) and '
+                 'all(k == B[1] and v == 7 for k, v in result["idxfirst"].items())'},
+        raises={},
+        bounded='two one-row whitelist files (barcodes of 3 symbolic letters over ACGTN) read by the same parser',
+        assumptions=['text file iteration yields the lines (A4); an empty barcode directory at construction'],
+    )
+
+    def replay(inputs, clause):
+        import os
+        import shutil
+        import tempfile
+        from pyvc.contract import import_real
+        BP = import_real(FP, 'BarcodeParser')
+        g = inputs.get('ghost') or {}
+        b0, b1 = [str(x) for x in (g.get('B') or ['ACG', 'TTN'])]
+        d, e_ = tempfile.mkdtemp(prefix='c03a_'), tempfile.mkdtemp(prefix='c03b_')
+        try:
+            paths = {'bcfirst': os.path.join(d, 'bcfirst.bc'), 'idxfirst': os.path.join(d, 'idxfirst.bc')}
+            open(paths['bcfirst'], 'w').write('%s\\t5\\n' % b0)
+            open(paths['idxfirst'], 'w').write('7\\t%s\\n' % b1)
+            p = BP(e_, hammingDistanceExpansion=0)      # an empty barcode directory
+            p.parse_barcode_file(paths[first])
+            p.parse_barcode_file(paths[second])
+            got = {k: dict(v) for k, v in p.barcodes.items()}
+            want = {'bcfirst': {b0: 5}, 'idxfirst': {b1: 7}}
+            obs = {'outcome': 'return', 'value': got, 'expected': want}
+            if got != want:
+                return {'status': 'confirmed', 'observed': obs, 'failed': [{'clause': clause}]}
+            return {'status': 'not-reproduced', 'observed': obs}
+        finally:
+            shutil.rmtree(d, ignore_errors=True)
+            shutil.rmtree(e_, ignore_errors=True)
+    u.replay = replay
+    return u
+
+
+UNITS += [two_files_unit(0), two_files_unit(1)]
